@@ -157,3 +157,38 @@ func bigFreshRooted(v ssa.Value, depth int) bool {
 	}
 	return false
 }
+
+// checkCallEvent evaluates "callback call:<FuncName> requires ..." clauses of the root contract at
+// every static call of that function reached while verifying the root (arguments are arg0, arg1, ...).
+// Only calls made by the root function itself count (not by inlined callees deeper down), so the
+// clause reads as an assertion placed at that call site.
+func (x *Exec) checkCallEvent(fr *Frame, st *State, key string, c *ssa.CallCommon, args []Value) {
+	if x.rootC == nil {
+		return
+	}
+	short := key[strings.LastIndex(key, "/")+1:]
+	for _, cl := range x.rootC.Clauses {
+		if cl.Kind != "callback" || !strings.HasPrefix(cl.Name, "call:") {
+			continue
+		}
+		want := cl.Name[5:]
+		if !(short == want || strings.HasSuffix(short, "."+want) || key == want) {
+			continue
+		}
+		env := x.newSpecEnv(fr, st, x.rootPre)
+		x.bindRootParams(env)
+		x.bindFrameNames(env, fr)
+		sig := c.Signature()
+		off := 0
+		if sig.Recv() != nil {
+			env.bind("arg0", TV{args[0], sig.Recv().Type()})
+			off = 1
+		}
+		for i := 0; i < sig.Params().Len() && i+off < len(args); i++ {
+			env.bind(fmt.Sprintf("arg%d", i+off), TV{args[i+off], sig.Params().At(i).Type()})
+		}
+		g := x.specBool(env, cl.E)
+		x.emit(st, "callback", fmt.Sprintf("%s:%s", cl.Name, cl.Label), g, false, cl.Line)
+		st.ghost["$called:"+want] = TTrue
+	}
+}
